@@ -28,6 +28,23 @@ def ty_text(t):
     return norm(express.typeref(t))
 
 
+def flags(t, g, where, out):
+    """structural comparison of an aggregate typeref with the dictionary's descriptor: kind, bounds, UNIQUE, OPTIONAL,
+    recursively for aggregates of aggregates (the printed type text is compared separately)"""
+    if t["agg"] == "none":
+        return
+    if not g or not g.get("agg"):
+        out.append(("aggregate-flags", "%s: the dictionary holds no aggregate descriptor (%s), declared %s" % (where, g, express.typeref(t))))
+        return
+    hi = g["hi"] if g["hi"] < 2147483647 else -1
+    got = (g["agg"], g["lo"], hi, g["uniq"], g["optelem"])
+    want = (t["agg"], t["lo"], t["hi"], t["uniq"], t["optelem"])
+    if got != want:
+        out.append(("aggregate-flags", "%s: descriptor (kind, lo, hi, UNIQUE, OPTIONAL) = %s, declared %s = %s" % (where, got, express.typeref(t), want)))
+    if "inner" in t:
+        flags(t["inner"], g.get("elem"), where + " element", out)
+
+
 def compare(c, dump):
     """-> list of (clause, message)"""
     out = []
@@ -50,6 +67,9 @@ def compare(c, dump):
         wx = [(a["name"].lower(), a["opt"], ty_text(a["ty"])) for a in e["attrs"]]
         if gx != wx:
             out.append(("explicit-attrs", "%s: explicit attributes %s, declared %s" % (e["name"], gx, wx)))
+        else:
+            for ga, wa in zip([a for a in g["attrs"] if a["kind"] == "explicit"], e["attrs"]):
+                flags(wa["ty"], ga.get("ty"), "%s.%s" % (e["name"], wa["name"]), out)
         gd = [(a["name"].lower(), norm(a["type"])) for a in g["attrs"] if a["kind"] == "derived"]
         wd = [(a["name"].lower(), ty_text(a["ty"])) for a in e["derived"]]
         if gd != wd:
@@ -83,8 +103,12 @@ def compare(c, dump):
             a = g.get("aggr")
             b = t["base"]
             kind = g["desc"].split()[0].upper() if g["desc"] else ""
-            if not a or (a["lo"], a["hi"], a["uniq"], a["optelem"]) != (b["lo"], b["hi"], b["uniq"], b["optelem"]) or kind != b["agg"]:
+            if not a or (a["lo"], a["hi"] if a["hi"] < 2147483647 else -1, a["uniq"], a["optelem"]) != (b["lo"], b["hi"], b["uniq"], b["optelem"]) or kind != b["agg"]:
                 out.append(("aggregate", "%s: %s %s, declared %s" % (t["name"], kind, a, express.typeref(b))))
+        # a renamed type names its underlying type either as the referent descriptor or in its description text
+        if t["k"] == "rename" and g["ref"].lower() != t["base"]["base"].lower() and \
+                not re.match(r"type%s=%s(--.*)?$" % (t["name"].lower(), t["base"]["base"].lower()), norm(g["desc"])):
+            out.append(("underlying", "%s: renames %s, declared %s" % (t["name"], g["ref"], t["base"]["base"])))
     extra = sorted(set(types) - {t["name"].lower() for t in D["types"]})
     if extra:
         out.append(("types-extra", "dictionary has types the schema does not declare: %s" % extra))
@@ -124,9 +148,9 @@ def run(ctx):
                 samples.append({"choice": c["choice"], "dictionary_entity": dump["entities"][0]})
             for clause, msg in compare(c, dump):
                 dis += 1
-                if clause.startswith("type-missing:") and clause.split(":", 1)[1] in c["devtypes"]:
-                    t = clause.split(":", 1)[1]
-                    key = "dev:Dev_RenamedEnumNotRegistered" if t == "colour2" else "dev:Dev_NestedAggrNotRegistered"
+                devs = {d["name"]: d["dev"] for d in c["devtypes"]}
+                if clause.startswith("type-missing:") and clause.split(":", 1)[1] in devs:
+                    key = "dev:" + devs[clause.split(":", 1)[1]]
                 else:
                     key = "%s|%s" % (clause, key0)
                 ctx.violation(key, msg[:500], {"choice": c["choice"], "input": txt, "clause": clause})
